@@ -21,7 +21,9 @@ Move(s, p, i) == CASE s = "in" -> <<p[1] * 7, p[2] * 5, p[3] * 9>>
 
 RoundTrip(f, cn, s, o) ==
   LET F == Inst(f, 0)
-  IN [kind |-> "roundtrip", K |-> [F EXCEPT !.pos = [i \in 1..Len(F.q) |-> Move(s, F.pos[i], i)]], cell |-> cn, cellpar |-> CellPar(cn), out |-> o]
+  IN [kind |-> "roundtrip", K |-> [F EXCEPT !.pos = [i \in 1..Len(F.q) |-> Move(s, F.pos[i], i)],
+                                        !.q = [i \in 1..Len(F.q) |-> IF s = "edge" /\ i = 1 THEN 0 ELSE F.q[i]]],   \* one neutral atom
+   cell |-> cn, cellpar |-> CellPar(cn), out |-> o]
 
 Tok(t, n) == [text |-> t, num |-> n]
 FracToks == <<Tok("0.2500", 20), Tok("1.2500", 100), Tok("-0.3750", -30), Tok("0.1250(3)", 10), Tok("2.25", 180),
